@@ -83,7 +83,7 @@ Proof.
   destruct (u32_try_from n); discriminate.
 Qed.
 
-(* ---- find_all: refuted on the unchanged tree, proved for the repair *)
+(* ---- find_all: the code before c9daf53 refuted, the current code proved *)
 Lemma find_all_index_panics :
   exists offsets len m site, find_all_index offsets len m = Panic site.
 Proof.
